@@ -152,6 +152,12 @@ def main():
     for c in cases:
         if not c["tokens"]:
             c["tokens"] = []
+    # a tenth of the texts through the LTL front end (LTL lexer / parser / error listener with the same interpreter): it accepts a subset
+    # of the language, and whatever it refuses it must refuse with RTAMTException too (seed r11 C14-2: the listener of the LTL front
+    # end raised AttributeError for a character that starts no token)
+    for c in cases:
+        if rng.random() < 0.1 and c.get("factory") == "StlDiscreteTimeOfflineSpecification":
+            c["factory"] = "ltl_offline"
     # a third of the cases next to another live object that declared, for itself, the names this text leaves undeclared: q, c, z as
     # constants, sub as a variable (seed r9 C14-1: constant tables shared by all objects - a bound q was then "declared")
     for c in cases:
